@@ -27,6 +27,7 @@ import IsoDT.Driver.DurTextQ
 import IsoDT.Driver.RecText
 import IsoDT.Driver.TruncQ
 import IsoDT.Driver.ConstructTrunc
+import IsoDT.Driver.StrptimeZone
 
 open IsoDT IsoDT.Model
 open IsoDT.Spec (Date TZ TP)
@@ -345,6 +346,7 @@ def extDispatch (toks : List String) : Option String :=
   <|> IsoDT.Driver.RecText.dispatch toks
   <|> IsoDT.Driver.TruncQ.dispatch toks
   <|> IsoDT.Driver.ConstructTrunc.dispatch toks
+  <|> IsoDT.Driver.StrptimeZone.dispatch toks
   -- <|> IsoDT.Driver.Foo.dispatch toks
 
 def dispatch (toks : List String) : String :=
